@@ -489,6 +489,7 @@ type call struct {
 	H       string   `json:"h"`
 	Servers []string `json:"servers"`
 	Spoof   string   `json:"spoof,omitempty"` // identity the peer claims: none (its own) | other (the other client's) | junk
+	Via     int      `json:"via,omitempty"`   // the edge node called: 1 | 2 (0: drawn by the driver)
 }
 
 type walk struct {
@@ -517,6 +518,7 @@ type stepObs struct {
 	Spoof string  `json:"spoof"`
 	Post  *stateP `json:"post,omitempty"` // omitted when identical to the previous state
 	Real  string  `json:"real,omitempty"` // hostname used on the wire
+	Via   int     `json:"via,omitempty"`  // the edge node that was called (1 | 2): the ring store is the same
 }
 
 type walkObs struct {
@@ -633,6 +635,7 @@ func (p *pubWorld) project() *stateP {
 
 // newPubWorld: a fresh store with the destination records of a1..a4, both clients registered through the API
 func newPubWorld(w *world) *pubWorld {
+	w.startServers() // nothing a server remembered about the previous store survives
 	w.freshStore()
 	p := &pubWorld{w: w, clients: map[string]*client{}, srv: map[string]*srvRec{"a1": w.self}, nodes: map[string]*protocol.Node{},
 		real: map[string]string{}, leases: map[string]uint64{}}
@@ -691,6 +694,15 @@ func (p *pubWorld) do(k call, r *rand.Rand) stepObs {
 		cl.claimed = &protocol.Node{Id: 424242, Address: "evil.example:1", Rendezvous: true}
 	}
 	w.tp.setCaller(cl)
+	w.tp2.setCaller(cl)
+	cli := w.cli
+	so.Via = k.Via // which of its edge nodes the client calls must not matter
+	if so.Via == 0 {
+		so.Via = 1 + r.Intn(2)
+	}
+	if so.Via == 2 {
+		cli = w.cli2
+	}
 	ctx, cancel := w.callCtx()
 	var err error
 	real := p.real[k.H]
@@ -698,20 +710,20 @@ func (p *pubWorld) do(k call, r *rand.Rand) stepObs {
 	switch k.Op {
 	case "generate":
 		var resp *protocol.GenerateHostnameResponse
-		resp, err = w.cli.GenerateHostname(ctx, &protocol.GenerateHostnameRequest{})
+		resp, err = cli.GenerateHostname(ctx, &protocol.GenerateHostnameRequest{})
 		if err == nil {
 			p.real[k.H] = resp.GetHostname()
 			so.Real = resp.GetHostname()
 		}
 	case "validate":
 		w.dnsOK(real, c) // the owner of the domain points the challenge record at the caller's token
-		_, err = w.cli.AcmeValidate(ctx, &protocol.ValidateRequest{Hostname: real, Proof: w.proof(real)})
+		_, err = cli.AcmeValidate(ctx, &protocol.ValidateRequest{Hostname: real, Proof: w.proof(real)})
 	case "publish":
-		_, err = w.cli.PublishTunnel(ctx, &protocol.PublishTunnelRequest{Hostname: real, Servers: p.servers(k.Servers)})
+		_, err = cli.PublishTunnel(ctx, &protocol.PublishTunnelRequest{Hostname: real, Servers: p.servers(k.Servers)})
 	case "unpublish":
-		_, err = w.cli.UnpublishTunnel(ctx, &protocol.UnpublishTunnelRequest{Hostname: real})
+		_, err = cli.UnpublishTunnel(ctx, &protocol.UnpublishTunnelRequest{Hostname: real})
 	case "release":
-		_, err = w.cli.ReleaseTunnel(ctx, &protocol.ReleaseTunnelRequest{Hostname: real})
+		_, err = cli.ReleaseTunnel(ctx, &protocol.ReleaseTunnelRequest{Hostname: real})
 	case "hold": // another server holds the client's lease
 		so.Spoof = "-"
 		var tok uint64
